@@ -442,9 +442,14 @@ impl Check for C12 {
                 }
             }
         }
-        let cut = match (tier, r.below(3)) {
-            (_, 0) => None,
-            _ => Some(r.below(stream.len() as u64 + 1) as u32),
+        // thorough: one stream in 20 is closed at EVERY byte offset (cut = u32::MAX marks the sweep)
+        let cut = if tier == Tier::Thorough && stream.len() <= 400 && r.below(20) == 0 {
+            Some(u32::MAX)
+        } else {
+            match r.below(3) {
+                0 => None,
+                _ => Some(r.below(stream.len() as u64 + 1) as u32),
+            }
         };
         Sc12 {
             seed: r.next_u64(),
@@ -516,6 +521,26 @@ impl Check for C12 {
             return rep;
         }
         // ---- raw stream
+        if sc.cut == Some(u32::MAX) {
+            let n = sc.stream_hex.len() / 2;
+            for c in 0..=n as u32 {
+                let one = Sc12 { cut: Some(c), ..sc.clone() };
+                let r2 = self.execute(&one);
+                rep.execs += r2.execs;
+                rep.steps += r2.steps;
+                for (k, v) in &r2.probes {
+                    rep.probe(k, *v);
+                }
+                if r2.violation.is_some() {
+                    rep.violation = r2.violation;
+                    return rep;
+                }
+            }
+            rep.probe("all_cut_offsets_swept", 1);
+            rep.nontrivial = true;
+            rep.shape = fnv(&[fnv_bytes(sc.stream_hex.as_bytes()), 0xA11]);
+            return rep;
+        }
         let bytes: Vec<u8> = (0..sc.stream_hex.len() / 2).map(|i| u8::from_str_radix(&sc.stream_hex[2 * i..2 * i + 2], 16).unwrap_or(0)).collect();
         let cut = sc.cut.map_or(bytes.len(), |c| (c as usize).min(bytes.len()));
         let sess = HubSc {
@@ -602,6 +627,9 @@ impl Check for C12 {
             return out;
         }
         let n = sc.stream_hex.len() / 2;
+        if sc.cut == Some(u32::MAX) {
+            return (0..=n as u32).map(|c| Sc12 { cut: Some(c), ..sc.clone() }).collect();
+        }
         let cut = sc.cut.map_or(n, |c| c as usize);
         if cut > 0 {
             out.push(Sc12 { cut: Some((cut / 2) as u32), ..sc.clone() });
